@@ -20,6 +20,7 @@ Record flat := {
   f_bincount : list Z;                              (* bnp.bincount(stream.start) *)
   f_hist : list (Z * Z * Z * list Z * list ratio);  (* bins, lo, hi, counts, edges of bnp.histogram(stream.start, ..) *)
   f_kmers : list (Z * list Z);                      (* k, count_kmers(stream.sequence, k).counts *)
+  f_revcomp : list (list (list Z));                 (* get_reverse_complement(stream.sequence): one list of rows per chunk *)
   f_groups : list (bool * list (Z * list Z))        (* per key kind: fast-path kind?, groupby(stream, key) *)
 }.
 
@@ -38,6 +39,7 @@ Inductive pobs :=
 | OHistSum (counts : list Z) (z : Z)
 | OValues (rows : list (list Z))
 | OMean0 (cols : list ratio)
+| OList (l : list Z)                       (* row sums / column sums of the values under the windows *)
 | OError.
 
 Record gen := {
@@ -93,6 +95,8 @@ Definition flat_spec_ok (f : flat) : bool :=
   && all_true (map (fun '(k, lo, hi, counts, edges) =>
         zlist_eqb counts (spec_hist k lo hi starts) && hist_edges_ok k lo hi edges) (f_hist f))
   && all_true (map (fun '(k, counts) => zlist_eqb counts (spec_kmer_counts (Z.to_nat k) (map e_seq data))) (f_kmers f))
+  && zll_eqb (concat (f_revcomp f)) (spec_revcomp (map e_seq data))
+  && zlist_eqb (map len (f_revcomp f)) (map len (f_chunks f))
   && all_true (map (fun '(_, gs) => list_eqb group_eqb gs (runs (combine (map e_gid data) ids))) (f_groups f)).
 
 Definition flat_model_ok (f : flat) : bool :=
@@ -105,6 +109,7 @@ Definition flat_model_ok (f : flat) : bool :=
   && all_true (map (fun '(k, lo, hi, counts, edges) => opt_zl_eqb (stream_hist k lo hi (f_starts f)) counts) (f_hist f))
   && all_true (map (fun '(k, counts) =>
         opt_zl_eqb (stream_kmer_counts (Z.to_nat k) (map (map e_seq) cs)) counts) (f_kmers f))
+  && list_eqb zll_eqb (f_revcomp f) (stream_map spec_revcomp (map (map e_seq) cs))
   && all_true (map (fun '(fast, gs) => list_eqb group_eqb gs (stream_groupby fast (f_keyed f))) (f_groups f)).
 
 (* ---------- re-chunking cases ---------- *)
@@ -164,6 +169,7 @@ Definition obs_matches (sizes : list Z) (expected : gval) (o : pobs) : bool :=
   | OValues rows, GR x => zll_eqb rows x
   | OMean0 cols, GSN sn =>
       (len cols =? len sn) && all_true (map (fun '(r, (s, n)) => close_to r s n) (combine cols sn))
+  | OList l, GL x => zlist_eqb l x
   | OError, GErr => true
   | _, _ => false
   end.
